@@ -1,6 +1,918 @@
 /-
-  C12 — property theorems (stub; to be filled in).
+  C12 — association mode (Append / Replace / Delete / Clear): for every sequence of scoped calls on one owner,
+  every relation kind, the stored links are exactly what plain set algebra defines; the in-memory field and
+  Find agree with them; no target record is lost.
 -/
+import GormModel.Model.Assoc
+import GormModel.Lemmas.Assoc
+import GormModel.Lemmas.AssocFindings   -- kernel-checked witnesses of the listed findings + composite-key partial theorems
 namespace Gorm
+open Gorm.Assoc
+
+namespace Assoc
+
+/-- every call of the sequence is well-formed in the state it is issued in -/
+def RunOk (r : Rel) (o : Nat) : List Op → St → Prop
+  | [], _ => True
+  | op :: ops, s => OpOk r s op ∧ RunOk r o ops (step r [o] op s)
+
+/-- the same with Unscoped allowed for the classes fk and m2m -/
+def RunOkU (r : Rel) (o : Nat) : List Op → St → Prop
+  | [], _ => True
+  | op :: ops, s => OpOkU r s op ∧ RunOkU r o ops (step r [o] op s)
+
+theorem RunOk.toU {r o} : ∀ {ops s}, RunOk r o ops s → RunOkU r o ops s
+  | [], _, _ => trivial
+  | _ :: _, _, h => ⟨h.1.toU, RunOk.toU h.2⟩
+
+/-- the specification: (next key, set of linked targets of the owner) under plain set algebra -/
+def specStep (r : Rel) (op : Op) (σ : Nat × List Nat) : Nat × List Nat :=
+  match op.kind with
+  | .append =>
+    if op.vals = [] then σ
+    else (σ.1 + zeros (opVs op), if r.card1 then fill (opVs op) σ.1 else σ.2 ++ fill (opVs op) σ.1)
+  | .replace => (σ.1 + zeros (opVs op), fill (opVs op) σ.1)
+  | .clear => (σ.1, [])
+  | .delete => (σ.1, σ.2.filter (· ∉ opVs op))
+
+def specRun (r : Rel) : List Op → Nat × List Nat → Nat × List Nat
+  | [], σ => σ
+  | op :: ops, σ => specRun r ops (specStep r op σ)
+
+theorem mem_linksOf (s : St) (o t : Nat) : t ∈ linksOf s o ↔ (o, t) ∈ s.links := by
+  simp only [linksOf, List.mem_eraseDups, List.mem_map, List.mem_filter, decide_eq_true_eq]
+  constructor
+  · rintro ⟨⟨a, b⟩, ⟨h1, h2⟩, h3⟩
+    simp at h2 h3; subst h2; subst h3; exact h1
+  · intro h; exact ⟨(o, t), ⟨h, rfl⟩, rfl⟩
+
+theorem specStep_next (r : Rel) (op : Op) (s : St) (L : List Nat) :
+    (specStep r op (s.next, L)).1 = opNext op s := by
+  obtain ⟨kind, uns, vals⟩ := op
+  cases kind <;> simp [specStep, opNext]
+  by_cases h : vals = [] <;> simp [h, opVs, zeros_nil]
+
+theorem specStep_own (r : Rel) (op : Op) (s : St) (o : Nat) (L : List Nat)
+    (hL : ∀ t, (o, t) ∈ s.links ↔ t ∈ L) (t : Nat) :
+    ownSpec r op s o t ↔ t ∈ (specStep r op (s.next, L)).2 := by
+  obtain ⟨kind, uns, vals⟩ := op
+  cases kind <;> simp [specStep, ownSpec, hL]
+  by_cases h : vals = [] <;> simp [h]
+  by_cases hc : r.card1 = true <;> simp [hc]
+
+end Assoc
+
+/-- per-step refinement (all relation kinds, all four operations): after one scoped call on owner `o`
+    * the invariant holds again,
+    * the links of `o` are given by set algebra on the links before (`ownSpec`),
+    * the links of every other owner are unchanged, except that for class fk (one fk column per target row)
+      the targets now linked to `o` are unlinked elsewhere,
+    * every target record survives and every argument record exists -/
+theorem C12_step_refines (r : Rel) (o : Nat) (s : St) (op : Op) (h : Inv r o s) (hok : OpOk r s op) :
+    Inv r o (step r [o] op s) ∧
+    (step r [o] op s).next = opNext op s ∧
+    (∀ t, (o, t) ∈ (step r [o] op s).links ↔ ownSpec r op s o t) ∧
+    (∀ o', o' ≠ o → ∀ t, (o', t) ∈ (step r [o] op s).links ↔
+        (o', t) ∈ s.links ∧ (r.cls = .fk → t ∉ opIds op s)) ∧
+    (∀ t ∈ s.targets, t ∈ (step r [o] op s).targets) ∧
+    (∀ t ∈ opIds op s, t ∈ (step r [o] op s).targets) :=
+  let m := sim_step h hok
+  ⟨m.inv, m.next, m.own, m.other, m.tsurv, m.tids⟩
+
+/-- the per-operation reading of `ownSpec` -/
+theorem C12_ownSpec_cases (r : Rel) (s : St) (o t : Nat) (uns : Bool) (vs : List Nat) :
+    (ownSpec r ⟨.append, uns, [vs]⟩ s o t ↔
+      if r.card1 then t ∈ fill vs s.next else (o, t) ∈ s.links ∨ t ∈ fill vs s.next) ∧
+    (ownSpec r ⟨.append, uns, []⟩ s o t ↔ (o, t) ∈ s.links) ∧
+    (ownSpec r ⟨.replace, uns, [vs]⟩ s o t ↔ t ∈ fill vs s.next) ∧
+    (ownSpec r ⟨.replace, uns, []⟩ s o t ↔ False) ∧
+    (ownSpec r ⟨.clear, uns, [vs]⟩ s o t ↔ False) ∧
+    (ownSpec r ⟨.delete, uns, [vs]⟩ s o t ↔ (o, t) ∈ s.links ∧ t ∉ vs) := by
+  simp [ownSpec, opVs, fill]
+
+/-- the invariant holds after every scoped single-owner run -/
+theorem C12_inv_run (r : Rel) (o : Nat) (ops : List Op) (s : St) (h : Inv r o s) (hok : RunOk r o ops s) :
+    Inv r o (run r [o] ops s) := by
+  induction ops generalizing s with
+  | nil => exact h
+  | cons op ops ih => exact ih _ (sim_step h hok.1).inv hok.2
+
+/-- MAIN: along every scoped single-owner run the links of the owner are exactly the specification fold -/
+theorem C12_links_refine (r : Rel) (o : Nat) (ops : List Op) (s : St) (L : List Nat)
+    (h : Inv r o s) (hok : RunOk r o ops s) (hL : ∀ t, (o, t) ∈ s.links ↔ t ∈ L) :
+    (run r [o] ops s).next = (specRun r ops (s.next, L)).1 ∧
+    ∀ t, (o, t) ∈ (run r [o] ops s).links ↔ t ∈ (specRun r ops (s.next, L)).2 := by
+  induction ops generalizing s L with
+  | nil => exact ⟨rfl, hL⟩
+  | cons op ops ih =>
+    have m := sim_step h hok.1
+    have hn : (step r [o] op s).next = (specStep r op (s.next, L)).1 := by
+      rw [m.next, specStep_next]
+    have hL' : ∀ t, (o, t) ∈ (step r [o] op s).links ↔ t ∈ (specStep r op (s.next, L)).2 :=
+      fun t => (m.own t).trans (specStep_own r op s o L hL t)
+    have := ih (step r [o] op s) (specStep r op (s.next, L)).2 m.inv hok.2 hL'
+    rw [hn] at this
+    exact this
+
+/-- … in particular starting from the stored links themselves -/
+theorem C12_links_refine_linksOf (r : Rel) (o : Nat) (ops : List Op) (s : St)
+    (h : Inv r o s) (hok : RunOk r o ops s) :
+    ∀ t, t ∈ linksOf (run r [o] ops s) o ↔ t ∈ (specRun r ops (s.next, linksOf s o)).2 := by
+  intro t
+  rw [mem_linksOf]
+  exact (C12_links_refine r o ops s (linksOf s o) h hok (fun t => (mem_linksOf s o t).symm)).2 t
+
+/-- the distinct in-memory records of the operated owner are exactly its stored links -/
+theorem C12_memory_agrees (r : Rel) (o : Nat) (s : St) (h : Inv r o s) :
+    ∀ t, t ∈ memKeys s o ↔ t ∈ linksOf s o := by
+  intro t
+  rw [mem_linksOf, memKeys, List.mem_eraseDups, mem_nz, h.agree]
+  constructor
+  · exact fun h' => h'.2
+  · exact fun h' => ⟨h.nzl _ h', h'⟩
+
+theorem C12_memory_agrees_run (r : Rel) (o : Nat) (ops : List Op) (s : St) (h : Inv r o s)
+    (hok : RunOk r o ops s) : ∀ t, t ∈ memKeys (run r [o] ops s) o ↔ t ∈ linksOf (run r [o] ops s) o :=
+  C12_memory_agrees r o _ (C12_inv_run r o ops s h hok)
+
+/-- `Association.Find` reports exactly the stored links, for every relation kind -/
+theorem C12_find_reports_links (r : Rel) (o : Nat) (s : St) (h : Inv r o s) :
+    ∀ t, t ∈ findIds r [o] s ↔ t ∈ linksOf s o := by
+  intro t
+  rw [mem_linksOf]
+  obtain ⟨h1, h2, h3, h4, h5, h6, h7, h8, h9, h10⟩ := h
+  obtain ⟨cls, c1⟩ := r
+  cases cls
+  · have hc : c1 = true := h1 rfl
+    subst hc
+    have hl := h8 rfl
+    have hq := h9 rfl
+    simp [findIds, List.mem_eraseDups]
+    cases hm : s.mem o with
+    | nil => grind
+    | cons v l =>
+      cases l with
+      | nil => grind
+      | cons w l => simp [hm] at hl
+  · simp [findIds, List.mem_eraseDups]
+  · simp [findIds, List.mem_eraseDups]
+    grind
+
+theorem C12_find_reports_links_run (r : Rel) (o : Nat) (ops : List Op) (s : St) (h : Inv r o s)
+    (hok : RunOk r o ops s) : ∀ t, t ∈ findIds r [o] (run r [o] ops s) ↔ t ∈ linksOf (run r [o] ops s) o :=
+  C12_find_reports_links r o _ (C12_inv_run r o ops s h hok)
+
+/-- along any scoped single-owner run every target record that existed still exists -/
+theorem C12_targets_survive (r : Rel) (o : Nat) (ops : List Op) (s : St) (h : Inv r o s)
+    (hok : RunOk r o ops s) : ∀ t ∈ s.targets, t ∈ (run r [o] ops s).targets := by
+  induction ops generalizing s with
+  | nil => exact fun _ ht => ht
+  | cons op ops ih =>
+    intro t ht
+    have m := sim_step h hok.1
+    exact ih _ m.inv hok.2 t (m.tsurv t ht)
+
+/-- `Association.Count` is the number of distinct stored links, for every relation kind -/
+theorem C12_count (r : Rel) (o : Nat) (s : St) (h : Inv r o s) :
+    count r [o] s = (linksOf s o).length := by
+  unfold count
+  apply List.Perm.length_eq
+  refine (List.perm_ext_iff_of_nodup ?_ (nodup_eraseDups _)).2 (C12_find_reports_links r o s h)
+  obtain ⟨cls, c1⟩ := r
+  cases cls
+  · have := nodup_map_filter (fun t : Nat => t) (fun t => decide (t ≠ 0 ∧ t ∈ [o].map s.memFk))
+      s.targets.eraseDups (nodup_eraseDups _) (fun a _ b _ _ _ e => e)
+    simpa [findIds] using this
+  · refine nodup_map_filter (fun p : Nat × Nat => p.2) (fun p => decide (p.1 ∈ [o]))
+      s.links.eraseDups (nodup_eraseDups _) ?_
+    rintro ⟨a1, a2⟩ _ ⟨b1, b2⟩ _ ha hb e
+    simp at ha hb e; subst ha; subst hb; subst e; rfl
+  · refine nodup_map_filter (fun p : Nat × Nat => p.2) (fun p => decide (p.1 ∈ [o] ∧ p.2 ∈ s.targets))
+      s.links.eraseDups (nodup_eraseDups _) ?_
+    rintro ⟨a1, a2⟩ _ ⟨b1, b2⟩ _ ha hb e
+    simp at ha hb e; obtain ⟨ha, _⟩ := ha; obtain ⟨hb, _⟩ := hb; subst ha; subst hb; subst e; rfl
+
+theorem C12_count_run (r : Rel) (o : Nat) (ops : List Op) (s : St) (h : Inv r o s)
+    (hok : RunOk r o ops s) : count r [o] (run r [o] ops s) = (linksOf (run r [o] ops s) o).length :=
+  C12_count r o _ (C12_inv_run r o ops s h hok)
+
+/-- classes m2m and bt: the links of every other owner are untouched by any scoped run on `o` -/
+theorem C12_other_owners_unchanged (r : Rel) (o : Nat) (ops : List Op) (s : St) (h : Inv r o s)
+    (hok : RunOk r o ops s) (hr : r.cls ≠ .fk) (o' : Nat) (ho : o' ≠ o) :
+    ∀ t, (o', t) ∈ (run r [o] ops s).links ↔ (o', t) ∈ s.links := by
+  induction ops generalizing s with
+  | nil => exact fun _ => Iff.rfl
+  | cons op ops ih =>
+    intro t
+    have m := sim_step h hok.1
+    refine (ih _ m.inv hok.2 t).trans ?_
+    rw [m.other o' ho t]
+    exact ⟨fun h' => h'.1, fun h' => ⟨h', fun e => absurd e hr⟩⟩
+
+/-- class fk: a scoped run on `o` never ADDS a link to another owner -/
+theorem C12_other_owners_shrink (r : Rel) (o : Nat) (ops : List Op) (s : St) (h : Inv r o s)
+    (hok : RunOk r o ops s) (o' : Nat) (ho : o' ≠ o) :
+    ∀ t, (o', t) ∈ (run r [o] ops s).links → (o', t) ∈ s.links := by
+  induction ops generalizing s with
+  | nil => exact fun _ h' => h'
+  | cons op ops ih =>
+    intro t ht
+    have m := sim_step h hok.1
+    exact ((m.other o' ho t).1 (ih _ m.inv hok.2 t ht)).1
+
+/-! ### Unscoped (classes fk and m2m; Unscoped belongs-to is finding territory) -/
+
+/-- per-step refinement with Unscoped: same link statements as the scoped case; a target record may disappear
+    only if the call removed its link to `o` (class fk: `DELETE` of the matched target rows) -/
+theorem C12_step_refines_unscoped (r : Rel) (o : Nat) (s : St) (op : Op) (h : Inv r o s) (hok : OpOkU r s op) :
+    Inv r o (step r [o] op s) ∧
+    (step r [o] op s).next = opNext op s ∧
+    (∀ t, (o, t) ∈ (step r [o] op s).links ↔ ownSpec r op s o t) ∧
+    (∀ o', o' ≠ o → ∀ t, (o', t) ∈ (step r [o] op s).links ↔
+        (o', t) ∈ s.links ∧ (r.cls = .fk → t ∉ opIds op s)) ∧
+    (∀ t ∈ s.targets, t ∈ (step r [o] op s).targets ∨ ((o, t) ∈ s.links ∧ (o, t) ∉ (step r [o] op s).links)) ∧
+    (∀ t ∈ opIds op s, t ∈ (step r [o] op s).targets) :=
+  let m := sim_step_u h hok
+  ⟨m.inv, m.next, m.own, m.other, m.tsurv, m.tids⟩
+
+theorem C12_inv_run_unscoped (r : Rel) (o : Nat) (ops : List Op) (s : St) (h : Inv r o s)
+    (hok : RunOkU r o ops s) : Inv r o (run r [o] ops s) := by
+  induction ops generalizing s with
+  | nil => exact h
+  | cons op ops ih => exact ih _ (sim_step_u h hok.1).inv hok.2
+
+theorem C12_links_refine_unscoped (r : Rel) (o : Nat) (ops : List Op) (s : St) (L : List Nat)
+    (h : Inv r o s) (hok : RunOkU r o ops s) (hL : ∀ t, (o, t) ∈ s.links ↔ t ∈ L) :
+    (run r [o] ops s).next = (specRun r ops (s.next, L)).1 ∧
+    ∀ t, (o, t) ∈ (run r [o] ops s).links ↔ t ∈ (specRun r ops (s.next, L)).2 := by
+  induction ops generalizing s L with
+  | nil => exact ⟨rfl, hL⟩
+  | cons op ops ih =>
+    have m := sim_step_u h hok.1
+    have hn : (step r [o] op s).next = (specStep r op (s.next, L)).1 := by
+      rw [m.next, specStep_next]
+    have hL' : ∀ t, (o, t) ∈ (step r [o] op s).links ↔ t ∈ (specStep r op (s.next, L)).2 :=
+      fun t => (m.own t).trans (specStep_own r op s o L hL t)
+    have := ih (step r [o] op s) (specStep r op (s.next, L)).2 m.inv hok.2 hL'
+    rw [hn] at this
+    exact this
+
+theorem C12_links_refine_linksOf_unscoped (r : Rel) (o : Nat) (ops : List Op) (s : St)
+    (h : Inv r o s) (hok : RunOkU r o ops s) :
+    ∀ t, t ∈ linksOf (run r [o] ops s) o ↔ t ∈ (specRun r ops (s.next, linksOf s o)).2 := by
+  intro t
+  rw [mem_linksOf]
+  exact (C12_links_refine_unscoped r o ops s (linksOf s o) h hok (fun t => (mem_linksOf s o t).symm)).2 t
+
+theorem C12_memory_agrees_run_unscoped (r : Rel) (o : Nat) (ops : List Op) (s : St) (h : Inv r o s)
+    (hok : RunOkU r o ops s) : ∀ t, t ∈ memKeys (run r [o] ops s) o ↔ t ∈ linksOf (run r [o] ops s) o :=
+  C12_memory_agrees r o _ (C12_inv_run_unscoped r o ops s h hok)
+
+theorem C12_find_reports_links_run_unscoped (r : Rel) (o : Nat) (ops : List Op) (s : St) (h : Inv r o s)
+    (hok : RunOkU r o ops s) : ∀ t, t ∈ findIds r [o] (run r [o] ops s) ↔ t ∈ linksOf (run r [o] ops s) o :=
+  C12_find_reports_links r o _ (C12_inv_run_unscoped r o ops s h hok)
+
+theorem C12_count_run_unscoped (r : Rel) (o : Nat) (ops : List Op) (s : St) (h : Inv r o s)
+    (hok : RunOkU r o ops s) : count r [o] (run r [o] ops s) = (linksOf (run r [o] ops s) o).length :=
+  C12_count r o _ (C12_inv_run_unscoped r o ops s h hok)
+
+/-- Unscoped runs: the links of other owners never grow (classes m2m: unchanged) -/
+theorem C12_other_owners_unchanged_unscoped (r : Rel) (o : Nat) (ops : List Op) (s : St) (h : Inv r o s)
+    (hok : RunOkU r o ops s) (hr : r.cls ≠ .fk) (o' : Nat) (ho : o' ≠ o) :
+    ∀ t, (o', t) ∈ (run r [o] ops s).links ↔ (o', t) ∈ s.links := by
+  induction ops generalizing s with
+  | nil => exact fun _ => Iff.rfl
+  | cons op ops ih =>
+    intro t
+    have m := sim_step_u h hok.1
+    refine (ih _ m.inv hok.2 t).trans ?_
+    rw [m.other o' ho t]
+    exact ⟨fun h' => h'.1, fun h' => ⟨h', fun e => absurd e hr⟩⟩
+
+/-- Unscoped runs: a target record that is still linked to some owner at the end was never deleted …
+    more precisely: every target that existed and is lost was at some point unlinked from `o`; stated per step
+    in `C12_step_refines_unscoped`; at run level: a lost target is not linked to `o` afterwards -/
+theorem C12_targets_lost_unlinked_unscoped (r : Rel) (o : Nat) (ops : List Op) (s : St) (h : Inv r o s)
+    (hok : RunOkU r o ops s) :
+    ∀ t, (o, t) ∈ (run r [o] ops s).links → t ∈ (run r [o] ops s).targets :=
+  fun _ ht => (C12_inv_run_unscoped r o ops s h hok).dang _ ht
+
+/-- non-vacuity (Unscoped): has-many, Unscoped Delete of a linked record removes the record itself -/
+example :
+    RunOkU ⟨.fk, false⟩ 1 [⟨.append, false, [[0, 7]]⟩, ⟨.delete, true, [[7]]⟩]
+      { links := [], targets := [7], next := 21, mem := fun _ => [], memFk := fun _ => 0 } ∧
+    (run ⟨.fk, false⟩ [1] [⟨.append, false, [[0, 7]]⟩, ⟨.delete, true, [[7]]⟩]
+      { links := [], targets := [7], next := 21, mem := fun _ => [], memFk := fun _ => 0 }).links = [(1, 21)] ∧
+    7 ∉ (run ⟨.fk, false⟩ [1] [⟨.append, false, [[0, 7]]⟩, ⟨.delete, true, [[7]]⟩]
+      { links := [], targets := [7], next := 21, mem := fun _ => [], memFk := fun _ => 0 }).targets := by
+  refine ⟨by simp [RunOkU, OpOkU], by decide, by decide⟩
+
+/-! ### slices of owners, class m2m (many2many) -/
+
+namespace Assoc
+
+/-- well-formed slice call (many2many): one well-formed value list per owner; Replace additionally ¬F12d -/
+def SliceOpOk (os : List Nat) (s : St) (op : Op) : Prop :=
+  (op.kind = .append → op.vals = [] ∨ (os.length = op.vals.length ∧ ValsOk s op.vals)) ∧
+  (op.kind = .replace →
+    op.vals = [] ∨ (os.length = op.vals.length ∧ ValsOk s op.vals ∧ NoF12d os op.vals s))
+
+def SliceRunOk (os : List Nat) : List Op → St → Prop
+  | [], _ => True
+  | op :: ops, s => SliceOpOk os s op ∧ SliceRunOk os ops (step ⟨.m2m, false⟩ os op s)
+
+/-- links of ANY owner `o` after a slice call, by set algebra on the links before it; the i-th owner's keyless
+    values get the keys after those of the owners before it (`idsOf`) -/
+def sliceSpec (os : List Nat) (op : Op) (s : St) (o t : Nat) : Prop :=
+  match op.kind with
+  | .append => (o, t) ∈ s.links ∨ t ∈ idsOf os op.vals s.next o
+  | .replace => if o ∈ os then t ∈ idsOf os op.vals s.next o else (o, t) ∈ s.links
+  | .clear => (o, t) ∈ s.links ∧ o ∉ os
+  | .delete => (o, t) ∈ s.links ∧ ¬(o ∈ os ∧ t ∈ opVs op)
+
+def sliceNext (op : Op) (s : St) : Nat :=
+  match op.kind with
+  | .append | .replace => s.next + zerosAll op.vals
+  | _ => s.next
+
+/-- specification state for slices: (next key, link list per owner) -/
+def sliceSpecStep (os : List Nat) (op : Op) (σ : Nat × (Nat → List Nat)) : Nat × (Nat → List Nat) :=
+  match op.kind with
+  | .append => (σ.1 + zerosAll op.vals, fun o => σ.2 o ++ idsOf os op.vals σ.1 o)
+  | .replace => (σ.1 + zerosAll op.vals, fun o => if o ∈ os then idsOf os op.vals σ.1 o else σ.2 o)
+  | .clear => (σ.1, fun o => if o ∈ os then [] else σ.2 o)
+  | .delete => (σ.1, fun o => if o ∈ os then (σ.2 o).filter (· ∉ opVs op) else σ.2 o)
+
+def sliceSpecRun (os : List Nat) : List Op → Nat × (Nat → List Nat) → Nat × (Nat → List Nat)
+  | [], σ => σ
+  | op :: ops, σ => sliceSpecRun os ops (sliceSpecStep os op σ)
+
+end Assoc
+
+/-- B1, per-step refinement for a slice of operated owners, class m2m, scoped or Unscoped -/
+theorem C12_slice_step_m2m (os : List Nat) (s : St) (op : Op) (hnd : os.Nodup) (hos : os ≠ [])
+    (hinv : ∀ o ∈ os, Inv ⟨.m2m, false⟩ o s) (hok : SliceOpOk os s op) :
+    (∀ o', (o' ∈ os ∨ Inv ⟨.m2m, false⟩ o' s) → Inv ⟨.m2m, false⟩ o' (step ⟨.m2m, false⟩ os op s)) ∧
+    (∀ o t, (o, t) ∈ (step ⟨.m2m, false⟩ os op s).links ↔ sliceSpec os op s o t) ∧
+    (step ⟨.m2m, false⟩ os op s).next = sliceNext op s ∧
+    (∀ t ∈ s.targets, t ∈ (step ⟨.m2m, false⟩ os op s).targets) := by
+  obtain ⟨o0, hO0⟩ := List.exists_mem_of_ne_nil os hos
+  have hG : Glob s := (hinv o0 hO0).glob
+  have he := hG.err
+  have hall : ∀ o', (o' ∈ os ∨ Inv ⟨.m2m, false⟩ o' s) → Inv ⟨.m2m, false⟩ o' s :=
+    fun o' h => h.elim (hinv o') id
+  obtain ⟨kind, uns, vals⟩ := op
+  obtain ⟨hA, hR⟩ := hok
+  simp at hA hR
+  cases kind
+  · -- append
+    by_cases hv : vals = []
+    · subst hv
+      simp [step, he, saveAssociation, sliceSpec, idsOf_nil_vals, sliceNext, zerosAll]
+      exact hall
+    · rcases hA rfl with h | ⟨hlen, hvok⟩
+      · exact absurd h hv
+      · obtain ⟨a1, a2, a3, a4, _⟩ := slice_append_m2m os vals s hnd hlen hinv hvok
+        have hlen' : vals.length = os.length := hlen.symm
+        simp only [step, he, saveAssociation, hv, hlen', sliceSpec, sliceNext]
+        simp
+        exact ⟨fun o' h => a1 o' (hall o' h), a2, a3, a4⟩
+  · -- replace
+    by_cases hv : vals = []
+    · subst hv
+      obtain ⟨c1, c2, c3, c4⟩ := slice_clear_m2m os uns s he
+      simp only [step, he, sliceSpec, idsOf_nil_vals, sliceNext]
+      simp
+      refine ⟨fun o' h => c1 o' (hall o' h), ?_, by simp [c3, zerosAll], by simp [c4]⟩
+      intro o t; rw [c2]; by_cases ho : o ∈ os <;> simp [ho]
+    · rcases hR rfl with h | ⟨hlen, hvok, hF⟩
+      · exact absurd h hv
+      · obtain ⟨r1, r2, r3, r4⟩ := slice_replace_m2m os vals uns s hnd hlen hv hG hvok (hF.ids hG hvok)
+        simp only [step, he, sliceSpec, sliceNext]
+        simp
+        exact ⟨fun o' h => r1 o' (h.imp id id), r2, r3, r4⟩
+  · -- delete
+    obtain ⟨d1, d2, d3, d4⟩ := slice_delete_m2m os (vals.headD []) uns s
+    simp only [step, he, sliceSpec, opVs, sliceNext]
+    simp
+    refine ⟨fun o' h => ?_, ?_, ?_, ?_⟩
+    · simpa using d1 o' (hall o' h)
+    · simpa using d2
+    · simpa using d3
+    · simp at d4; simp [d4]
+  · -- clear
+    obtain ⟨c1, c2, c3, c4⟩ := slice_clear_m2m os uns s he
+    simp only [step, he, sliceSpec, sliceNext]
+    simp
+    exact ⟨fun o' h => c1 o' (hall o' h), c2, c3, by simp [c4]⟩
+
+/-- B1: the invariant of every operated owner holds after every slice run (class m2m) -/
+theorem C12_slice_inv_run_m2m (os : List Nat) (ops : List Op) (s : St) (hnd : os.Nodup) (hos : os ≠ [])
+    (hinv : ∀ o ∈ os, Inv ⟨.m2m, false⟩ o s) (hok : SliceRunOk os ops s) :
+    ∀ o ∈ os, Inv ⟨.m2m, false⟩ o (run ⟨.m2m, false⟩ os ops s) := by
+  induction ops generalizing s with
+  | nil => exact hinv
+  | cons op ops ih =>
+    have m := C12_slice_step_m2m os s op hnd hos hinv hok.1
+    exact ih _ (fun o ho => m.1 o (Or.inl ho)) hok.2
+
+/-- B1: a slice run never touches the links (nor the invariant) of a non-operated owner (class m2m) -/
+theorem C12_slice_other_owners_m2m (os : List Nat) (ops : List Op) (s : St) (hnd : os.Nodup) (hos : os ≠ [])
+    (hinv : ∀ o ∈ os, Inv ⟨.m2m, false⟩ o s) (hok : SliceRunOk os ops s) (o' : Nat) (ho' : o' ∉ os) :
+    (∀ t, (o', t) ∈ (run ⟨.m2m, false⟩ os ops s).links ↔ (o', t) ∈ s.links) ∧
+    (Inv ⟨.m2m, false⟩ o' s → Inv ⟨.m2m, false⟩ o' (run ⟨.m2m, false⟩ os ops s)) := by
+  induction ops generalizing s with
+  | nil => exact ⟨fun _ => Iff.rfl, id⟩
+  | cons op ops ih =>
+    have m := C12_slice_step_m2m os s op hnd hos hinv hok.1
+    have := ih _ (fun o ho => m.1 o (Or.inl ho)) hok.2
+    refine ⟨fun t => (this.1 t).trans ?_, fun h => this.2 (m.1 o' (Or.inr h))⟩
+    rw [m.2.1 o' t]
+    obtain ⟨kind, uns, vals⟩ := op
+    cases kind <;> simp [sliceSpec, ho', idsOf_not_mem]
+
+/-- B1, MAIN for slices (class m2m): along every well-formed slice run the links of EVERY owner (operated or
+    not) are exactly the specification fold -/
+theorem C12_slice_links_refine_m2m (os : List Nat) (ops : List Op) (s : St) (L : Nat → List Nat)
+    (hnd : os.Nodup) (hos : os ≠ []) (hinv : ∀ o ∈ os, Inv ⟨.m2m, false⟩ o s) (hok : SliceRunOk os ops s)
+    (hL : ∀ o t, (o, t) ∈ s.links ↔ t ∈ L o) :
+    (run ⟨.m2m, false⟩ os ops s).next = (sliceSpecRun os ops (s.next, L)).1 ∧
+    ∀ o t, (o, t) ∈ (run ⟨.m2m, false⟩ os ops s).links ↔ t ∈ (sliceSpecRun os ops (s.next, L)).2 o := by
+  induction ops generalizing s L with
+  | nil => exact ⟨rfl, hL⟩
+  | cons op ops ih =>
+    have m := C12_slice_step_m2m os s op hnd hos hinv hok.1
+    have hn : (step ⟨.m2m, false⟩ os op s).next = (sliceSpecStep os op (s.next, L)).1 := by
+      rw [m.2.2.1]
+      obtain ⟨kind, uns, vals⟩ := op
+      cases kind <;> simp [sliceNext, sliceSpecStep]
+    have hL' : ∀ o t, (o, t) ∈ (step ⟨.m2m, false⟩ os op s).links ↔ t ∈ (sliceSpecStep os op (s.next, L)).2 o := by
+      intro o t
+      rw [m.2.1 o t]
+      obtain ⟨kind, uns, vals⟩ := op
+      cases kind <;> simp [sliceSpec, sliceSpecStep, hL]
+      · by_cases ho : o ∈ os <;> simp [ho]
+      · by_cases ho : o ∈ os <;> simp [ho]
+      · by_cases ho : o ∈ os <;> simp [ho]
+    have := ih (step ⟨.m2m, false⟩ os op s) (sliceSpecStep os op (s.next, L)).2
+      (fun o ho => m.1 o (Or.inl ho)) hok.2 hL'
+    rw [hn] at this
+    exact this
+
+/-- B2 (m2m, fk): Find on a slice reports exactly the links of the operated owners -/
+theorem C12_slice_find_m2m (os : List Nat) (s : St) (o0 : Nat) (h0 : Inv ⟨.m2m, false⟩ o0 s) :
+    ∀ t, t ∈ findIds ⟨.m2m, false⟩ os s ↔ ∃ o ∈ os, (o, t) ∈ s.links := by
+  intro t
+  have hd := h0.dang
+  simp [findIds]
+  constructor
+  · rintro ⟨a, h1, h2, _⟩; exact ⟨a, h2, h1⟩
+  · rintro ⟨a, h1, h2⟩; exact ⟨a, h2, h1, hd _ h2⟩
+
+theorem C12_slice_find_fk (c1 : Bool) (os : List Nat) (s : St) :
+    ∀ t, t ∈ findIds ⟨.fk, c1⟩ os s ↔ ∃ o ∈ os, (o, t) ∈ s.links := by
+  intro t
+  simp [findIds]
+  constructor
+  · rintro ⟨a, h1, h2⟩; exact ⟨a, h2, h1⟩
+  · rintro ⟨a, h1, h2⟩; exact ⟨a, h2, h1⟩
+
+/-- B2: Count on a slice = number of distinct (owner, target) links of the operated owners -/
+theorem C12_slice_count_m2m (os : List Nat) (s : St) (o0 : Nat) (h0 : Inv ⟨.m2m, false⟩ o0 s) :
+    count ⟨.m2m, false⟩ os s = (s.links.eraseDups.filter (fun p => p.1 ∈ os)).length := by
+  have hd := h0.dang
+  simp only [count, findIds, List.length_map]
+  congr 1
+  apply List.filter_congr
+  intro p hp
+  have := hd p (List.mem_eraseDups.1 hp)
+  simp [this]
+
+theorem C12_slice_count_fk (c1 : Bool) (os : List Nat) (s : St) :
+    count ⟨.fk, c1⟩ os s = (s.links.eraseDups.filter (fun p => p.1 ∈ os)).length := by
+  simp [count, findIds]
+
+/-- B2: after any slice run the in-memory field of every operated owner agrees with its links, and Find /
+    Count report the links (class m2m) -/
+theorem C12_slice_observations_run_m2m (os : List Nat) (ops : List Op) (s : St) (hnd : os.Nodup) (hos : os ≠ [])
+    (hinv : ∀ o ∈ os, Inv ⟨.m2m, false⟩ o s) (hok : SliceRunOk os ops s) :
+    (∀ o ∈ os, ∀ t, t ∈ memKeys (run ⟨.m2m, false⟩ os ops s) o ↔ t ∈ linksOf (run ⟨.m2m, false⟩ os ops s) o) ∧
+    (∀ t, t ∈ findIds ⟨.m2m, false⟩ os (run ⟨.m2m, false⟩ os ops s) ↔
+      ∃ o ∈ os, (o, t) ∈ (run ⟨.m2m, false⟩ os ops s).links) ∧
+    count ⟨.m2m, false⟩ os (run ⟨.m2m, false⟩ os ops s) =
+      ((run ⟨.m2m, false⟩ os ops s).links.eraseDups.filter (fun p => p.1 ∈ os)).length := by
+  have hI := C12_slice_inv_run_m2m os ops s hnd hos hinv hok
+  obtain ⟨o0, hO0⟩ := List.exists_mem_of_ne_nil os hos
+  exact ⟨fun o ho => C12_memory_agrees _ o _ (hI o ho), C12_slice_find_m2m os _ o0 (hI o0 hO0),
+    C12_slice_count_m2m os _ o0 (hI o0 hO0)⟩
+
+/-! ### slices of owners, class bt (belongs-to), scoped -/
+
+namespace Assoc
+
+/-- well-formed scoped slice call (belongs-to): exactly one value per owner -/
+def SliceOpOkBt (os : List Nat) (s : St) (op : Op) : Prop :=
+  op.unscoped = false ∧
+  ((op.kind = .append ∨ op.kind = .replace) →
+    op.vals = [] ∨ (os.length = op.vals.length ∧ ValsOkBt s op.vals))
+
+def SliceRunOkBt (os : List Nat) : List Op → St → Prop
+  | [], _ => True
+  | op :: ops, s => SliceOpOkBt os s op ∧ SliceRunOkBt os ops (step ⟨.bt, true⟩ os op s)
+
+def sliceSpecBt (os : List Nat) (op : Op) (s : St) (o t : Nat) : Prop :=
+  match op.kind with
+  | .append =>
+    if op.vals = [] then (o, t) ∈ s.links
+    else if o ∈ os then t ∈ idsOf os op.vals s.next o else (o, t) ∈ s.links
+  | .replace => if o ∈ os then t ∈ idsOf os op.vals s.next o else (o, t) ∈ s.links
+  | .clear => (o, t) ∈ s.links ∧ o ∉ os
+  | .delete => (o, t) ∈ s.links ∧ ¬(o ∈ os ∧ t ∈ opVs op)
+
+end Assoc
+
+/-- B4, per-step refinement for a slice of operated owners, class bt, scoped -/
+theorem C12_slice_step_bt (os : List Nat) (s : St) (op : Op) (hnd : os.Nodup) (hos : os ≠ [])
+    (hinv : ∀ o ∈ os, Inv ⟨.bt, true⟩ o s) (hok : SliceOpOkBt os s op) :
+    (∀ o', (o' ∈ os ∨ Inv ⟨.bt, true⟩ o' s) → Inv ⟨.bt, true⟩ o' (step ⟨.bt, true⟩ os op s)) ∧
+    (∀ o t, (o, t) ∈ (step ⟨.bt, true⟩ os op s).links ↔ sliceSpecBt os op s o t) ∧
+    (step ⟨.bt, true⟩ os op s).next = sliceNext op s ∧
+    (∀ t ∈ s.targets, t ∈ (step ⟨.bt, true⟩ os op s).targets) := by
+  obtain ⟨o0, hO0⟩ := List.exists_mem_of_ne_nil os hos
+  have he := (hinv o0 hO0).err
+  have hall : ∀ o', (o' ∈ os ∨ Inv ⟨.bt, true⟩ o' s) → Inv ⟨.bt, true⟩ o' s :=
+    fun o' h => h.elim (hinv o') id
+  obtain ⟨kind, uns, vals⟩ := op
+  obtain ⟨hu, hV⟩ := hok
+  simp at hu hV
+  subst hu
+  have hset : vals ≠ [] → os.length = vals.length → ValsOkBt s vals →
+      (∀ o', (o' ∈ os ∨ Inv ⟨.bt, true⟩ o' s) → Inv ⟨.bt, true⟩ o' (replace ⟨.bt, true⟩ os false vals s)) ∧
+      (∀ o t, (o, t) ∈ (replace ⟨.bt, true⟩ os false vals s).links ↔
+        if o ∈ os then t ∈ idsOf os vals s.next o else (o, t) ∈ s.links) ∧
+      (replace ⟨.bt, true⟩ os false vals s).next = s.next + zerosAll vals ∧
+      (∀ t ∈ s.targets, t ∈ (replace ⟨.bt, true⟩ os false vals s).targets) := by
+    intro hv hlen hvok
+    obtain ⟨a1, a2, a3, a4, a5⟩ := slice_set_bt os vals s hnd hlen hinv hvok he
+    have hlen' : vals.length = os.length := hlen.symm
+    simp only [replace, saveAssociation, hv, hlen']
+    simp [a5]
+    exact ⟨fun o' h => a1 o' (hall o' h), a2, a3, a4⟩
+  have hclear := slice_clear_bt os s he
+  cases kind
+  · -- append
+    by_cases hv : vals = []
+    · subst hv
+      simp [step, he, sliceSpecBt, sliceNext, zerosAll]
+      exact hall
+    · rcases hV (Or.inl rfl) with h | ⟨hlen, hvok⟩
+      · exact absurd h hv
+      · simpa [step, he, hv, sliceSpecBt, sliceNext] using hset hv hlen hvok
+  · -- replace
+    by_cases hv : vals = []
+    · subst hv
+      obtain ⟨c1, c2, c3, c4⟩ := hclear
+      simp only [step, he, sliceSpecBt, idsOf_nil_vals, sliceNext]
+      simp
+      refine ⟨fun o' h => c1 o' (hall o' h), ?_, by simp [c3, zerosAll], by simp [c4]⟩
+      intro o t; rw [c2]; by_cases ho : o ∈ os <;> simp [ho]
+    · rcases hV (Or.inr rfl) with h | ⟨hlen, hvok⟩
+      · exact absurd h hv
+      · simpa [step, he, sliceSpecBt, sliceNext] using hset hv hlen hvok
+  · -- delete
+    obtain ⟨d1, d2, d3, d4⟩ := slice_delete_bt os (vals.headD []) s hnd
+    simp only [step, he, sliceSpecBt, opVs, sliceNext]
+    simp
+    refine ⟨fun o' h => ?_, ?_, ?_, ?_⟩
+    · simpa using d1 o' (hall o' h)
+    · simpa using d2
+    · simpa using d3
+    · simp at d4; simp [d4]
+  · -- clear
+    obtain ⟨c1, c2, c3, c4⟩ := hclear
+    simp only [step, he, sliceSpecBt, sliceNext]
+    simp
+    exact ⟨fun o' h => c1 o' (hall o' h), c2, c3, by simp [c4]⟩
+
+/-- B4: the invariant of every operated owner holds after every scoped slice run (class bt) -/
+theorem C12_slice_inv_run_bt (os : List Nat) (ops : List Op) (s : St) (hnd : os.Nodup) (hos : os ≠ [])
+    (hinv : ∀ o ∈ os, Inv ⟨.bt, true⟩ o s) (hok : SliceRunOkBt os ops s) :
+    ∀ o ∈ os, Inv ⟨.bt, true⟩ o (run ⟨.bt, true⟩ os ops s) := by
+  induction ops generalizing s with
+  | nil => exact hinv
+  | cons op ops ih =>
+    have m := C12_slice_step_bt os s op hnd hos hinv hok.1
+    exact ih _ (fun o ho => m.1 o (Or.inl ho)) hok.2
+
+/-- B4: a scoped slice run never touches the links of a non-operated owner (class bt) -/
+theorem C12_slice_other_owners_bt (os : List Nat) (ops : List Op) (s : St) (hnd : os.Nodup) (hos : os ≠ [])
+    (hinv : ∀ o ∈ os, Inv ⟨.bt, true⟩ o s) (hok : SliceRunOkBt os ops s) (o' : Nat) (ho' : o' ∉ os) :
+    (∀ t, (o', t) ∈ (run ⟨.bt, true⟩ os ops s).links ↔ (o', t) ∈ s.links) ∧
+    (Inv ⟨.bt, true⟩ o' s → Inv ⟨.bt, true⟩ o' (run ⟨.bt, true⟩ os ops s)) := by
+  induction ops generalizing s with
+  | nil => exact ⟨fun _ => Iff.rfl, id⟩
+  | cons op ops ih =>
+    have m := C12_slice_step_bt os s op hnd hos hinv hok.1
+    have := ih _ (fun o ho => m.1 o (Or.inl ho)) hok.2
+    refine ⟨fun t => (this.1 t).trans ?_, fun h => this.2 (m.1 o' (Or.inr h))⟩
+    rw [m.2.1 o' t]
+    obtain ⟨kind, uns, vals⟩ := op
+    cases kind <;> simp [sliceSpecBt, ho']
+
+/-- B2 (bt): Find on a slice reports exactly the links of the operated owners -/
+theorem C12_slice_find_bt (os : List Nat) (s : St) (hinv : ∀ o ∈ os, Inv ⟨.bt, true⟩ o s) :
+    ∀ t, t ∈ findIds ⟨.bt, true⟩ os s ↔ ∃ o ∈ os, (o, t) ∈ s.links := by
+  intro t
+  simp [findIds]
+  constructor
+  · rintro ⟨ht, h0, o, ho, hfk⟩
+    refine ⟨o, ho, ?_⟩
+    have h := hinv o ho
+    have hq := h.fkq rfl
+    rw [← h.agree]
+    cases hm : s.mem o with
+    | nil => simp [hm] at hq; omega
+    | cons v l => simp [hm] at hq; simp; left; omega
+  · rintro ⟨o, ho, hl⟩
+    have h := hinv o ho
+    have hq := h.fkq rfl
+    have hone := h.one rfl
+    have hmem := (h.agree t).2 hl
+    refine ⟨h.dang _ hl, h.nzl _ hl, o, ho, ?_⟩
+    cases hm : s.mem o with
+    | nil => simp [hm] at hmem
+    | cons v l =>
+      cases l with
+      | nil => simp [hm] at hmem hq; omega
+      | cons w l => simp [hm] at hone
+
+/-! ### slices of owners, class fk (has-many), scoped, under ¬F12e -/
+
+namespace Assoc
+
+/-- well-formed scoped slice call (has-many): Append under ¬F12e; Replace needs only the part of ¬F12e that
+    says that the value lists of different owners share no non-zero key (`DisjVals`, implied by `NoF12e`) -/
+def SliceOpOkFk (os : List Nat) (s : St) (op : Op) : Prop :=
+  op.unscoped = false ∧
+  (op.kind = .append →
+    op.vals = [] ∨ (os.length = op.vals.length ∧ ValsOkFk s op.vals ∧ NoF12e os op.vals s)) ∧
+  (op.kind = .replace →
+    op.vals = [] ∨ (os.length = op.vals.length ∧ ValsOkFk s op.vals ∧ DisjVals os op.vals))
+
+def SliceRunOkFk (os : List Nat) : List Op → St → Prop
+  | [], _ => True
+  | op :: ops, s => SliceOpOkFk os s op ∧ SliceRunOkFk os ops (step ⟨.fk, false⟩ os op s)
+
+end Assoc
+
+/-- B3, per-step refinement for a slice of operated owners, class fk (has-many), scoped, under ¬F12e:
+    operated owners exactly as the specification, non-operated owners never gain a link -/
+theorem C12_slice_step_fk (os : List Nat) (s : St) (op : Op) (hnd : os.Nodup) (hos : os ≠ [])
+    (hinv : ∀ o ∈ os, Inv ⟨.fk, false⟩ o s) (hok : SliceOpOkFk os s op) :
+    (∀ o ∈ os, Inv ⟨.fk, false⟩ o (step ⟨.fk, false⟩ os op s)) ∧
+    (∀ o ∈ os, ∀ t, (o, t) ∈ (step ⟨.fk, false⟩ os op s).links ↔ sliceSpec os op s o t) ∧
+    (∀ x, x ∉ os → ∀ t, (x, t) ∈ (step ⟨.fk, false⟩ os op s).links → (x, t) ∈ s.links) ∧
+    (step ⟨.fk, false⟩ os op s).next = sliceNext op s ∧
+    (∀ t ∈ s.targets, t ∈ (step ⟨.fk, false⟩ os op s).targets) := by
+  obtain ⟨o0, hO0⟩ := List.exists_mem_of_ne_nil os hos
+  have hG : Glob s := (hinv o0 hO0).glob
+  have hU : Uniq s := (hinv o0 hO0).uniqFk
+  have he := hG.err
+  obtain ⟨kind, uns, vals⟩ := op
+  obtain ⟨hu, hA, hR⟩ := hok
+  simp at hu hA hR
+  subst hu
+  have hclear := slice_clear_fk os s he
+  cases kind
+  · -- append
+    by_cases hv : vals = []
+    · subst hv
+      simp [step, he, saveAssociation, sliceSpec, idsOf_nil_vals, sliceNext, zerosAll]
+      exact hinv
+    · rcases hA rfl with h | ⟨hlen, hvok, hF⟩
+      · exact absurd h hv
+      · obtain ⟨a1, _, a3, a4, a5, a6⟩ := slice_append_fk os vals s [] hnd hlen hinv (by simp) hvok hF (by simp)
+        have hlen' : vals.length = os.length := hlen.symm
+        simp only [step, he, saveAssociation, hv, hlen', sliceSpec, sliceNext]
+        simp
+        refine ⟨a1, a3, ?_, a5, a6⟩
+        intro x hx t hl
+        rcases a4 x t hl with h | ⟨h, _⟩
+        · exact h
+        · exact absurd h hx
+  · -- replace
+    by_cases hv : vals = []
+    · subst hv
+      obtain ⟨c1, c2, c3, c4⟩ := hclear
+      simp only [step, he, sliceSpec, idsOf_nil_vals, sliceNext]
+      simp
+      refine ⟨fun o ho => c1 o (hinv o ho), ?_, ?_, by simp [c3, zerosAll], by simp [c4]⟩
+      · intro o ho t; rw [c2]; simp [ho]
+      · intro x _ t hl; exact ((c2 x t).1 hl).1
+    · rcases hR rfl with h | ⟨hlen, hvok, hD⟩
+      · exact absurd h hv
+      · obtain ⟨r1, r2, r3, r4⟩ := slice_replace_fk os vals s hnd hlen hv hG hU hvok hD
+        simp only [step, he, sliceSpec, sliceNext]
+        simp
+        refine ⟨r1, ?_, ?_, r3, r4⟩
+        · intro o ho t; rw [r2]; simp [ho]
+        · intro x hx t hl; have := (r2 x t).1 hl; simp [hx] at this; exact this.1
+  · -- delete
+    obtain ⟨d1, d2, d3, d4⟩ := slice_delete_fk os (vals.headD []) s
+    simp only [step, he, sliceSpec, opVs, sliceNext]
+    simp
+    refine ⟨fun o ho => ?_, ?_, ?_, ?_, ?_⟩
+    · simpa using d1 o (hinv o ho)
+    · intro o _ t; simpa using d2 o t
+    · intro x _ t hl; exact ((d2 x t).1 (by simpa using hl)).1
+    · simpa using d3
+    · simp at d4; simp [d4]
+  · -- clear
+    obtain ⟨c1, c2, c3, c4⟩ := hclear
+    simp only [step, he, sliceSpec, sliceNext]
+    simp
+    refine ⟨fun o ho => c1 o (hinv o ho), fun o _ t => c2 o t, ?_, c3, by simp [c4]⟩
+    intro x _ t hl; exact ((c2 x t).1 hl).1
+
+/-- B3: the invariant of every operated owner holds after every scoped slice run under ¬F12e (class fk) -/
+theorem C12_slice_inv_run_fk (os : List Nat) (ops : List Op) (s : St) (hnd : os.Nodup) (hos : os ≠ [])
+    (hinv : ∀ o ∈ os, Inv ⟨.fk, false⟩ o s) (hok : SliceRunOkFk os ops s) :
+    ∀ o ∈ os, Inv ⟨.fk, false⟩ o (run ⟨.fk, false⟩ os ops s) := by
+  induction ops generalizing s with
+  | nil => exact hinv
+  | cons op ops ih =>
+    have m := C12_slice_step_fk os s op hnd hos hinv hok.1
+    exact ih _ m.1 hok.2
+
+/-- B3, run level: the links of every OPERATED owner are exactly the specification fold (class fk) -/
+theorem C12_slice_links_refine_fk (os : List Nat) (ops : List Op) (s : St) (L : Nat → List Nat)
+    (hnd : os.Nodup) (hos : os ≠ []) (hinv : ∀ o ∈ os, Inv ⟨.fk, false⟩ o s) (hok : SliceRunOkFk os ops s)
+    (hL : ∀ o ∈ os, ∀ t, (o, t) ∈ s.links ↔ t ∈ L o) :
+    (run ⟨.fk, false⟩ os ops s).next = (sliceSpecRun os ops (s.next, L)).1 ∧
+    ∀ o ∈ os, ∀ t, (o, t) ∈ (run ⟨.fk, false⟩ os ops s).links ↔ t ∈ (sliceSpecRun os ops (s.next, L)).2 o := by
+  induction ops generalizing s L with
+  | nil => exact ⟨rfl, hL⟩
+  | cons op ops ih =>
+    have m := C12_slice_step_fk os s op hnd hos hinv hok.1
+    have hn : (step ⟨.fk, false⟩ os op s).next = (sliceSpecStep os op (s.next, L)).1 := by
+      rw [m.2.2.2.1]
+      obtain ⟨kind, uns, vals⟩ := op
+      cases kind <;> simp [sliceNext, sliceSpecStep]
+    have hL' : ∀ o ∈ os, ∀ t, (o, t) ∈ (step ⟨.fk, false⟩ os op s).links ↔
+        t ∈ (sliceSpecStep os op (s.next, L)).2 o := by
+      intro o ho t
+      rw [m.2.1 o ho t]
+      obtain ⟨kind, uns, vals⟩ := op
+      cases kind <;> simp [sliceSpec, sliceSpecStep, hL o ho, ho]
+    have := ih (step ⟨.fk, false⟩ os op s) (sliceSpecStep os op (s.next, L)).2 m.1 hok.2 hL'
+    rw [hn] at this
+    exact this
+
+/-- B3: a scoped slice run never ADDS a link to a non-operated owner (class fk) -/
+theorem C12_slice_other_owners_shrink_fk (os : List Nat) (ops : List Op) (s : St) (hnd : os.Nodup) (hos : os ≠ [])
+    (hinv : ∀ o ∈ os, Inv ⟨.fk, false⟩ o s) (hok : SliceRunOkFk os ops s) (x : Nat) (hx : x ∉ os) :
+    ∀ t, (x, t) ∈ (run ⟨.fk, false⟩ os ops s).links → (x, t) ∈ s.links := by
+  induction ops generalizing s with
+  | nil => exact fun _ h => h
+  | cons op ops ih =>
+    intro t ht
+    have m := C12_slice_step_fk os s op hnd hos hinv hok.1
+    exact m.2.2.1 x hx t (ih _ m.1 hok.2 t ht)
+
+/-- belongs-to: a stored link of an owner satisfying the invariant is its non-zero in-memory fk -/
+theorem Assoc.bt_link_fk {o t : Nat} {s : St} (h : Inv ⟨.bt, true⟩ o s) (hl : (o, t) ∈ s.links) :
+    s.memFk o = t ∧ t ≠ 0 := by
+  have hq := h.fkq rfl
+  have hone := h.one rfl
+  have hmem := (h.agree t).2 hl
+  refine ⟨?_, h.nzl _ hl⟩
+  cases hm : s.mem o with
+  | nil => simp [hm] at hmem
+  | cons v l =>
+    cases l with
+    | nil => simp [hm] at hmem hq; omega
+    | cons w l => simp [hm] at hone
+
+/-- B2 (bt), under ¬F12b (`memFk` injective on the operated owners with a non-zero fk): Count on a slice =
+    number of distinct (owner, target) links of the operated owners -/
+theorem C12_slice_count_bt (os : List Nat) (s : St) (hinv : ∀ o ∈ os, Inv ⟨.bt, true⟩ o s)
+    (hinj : ∀ a ∈ os, ∀ b ∈ os, s.memFk a ≠ 0 → s.memFk a = s.memFk b → a = b) :
+    count ⟨.bt, true⟩ os s = (s.links.eraseDups.filter (fun p => p.1 ∈ os)).length := by
+  rw [← List.length_map (f := fun p : Nat × Nat => p.2)]
+  unfold count
+  apply List.Perm.length_eq
+  refine (List.perm_ext_iff_of_nodup ?_ ?_).2 ?_
+  · have := nodup_map_filter (fun t : Nat => t) (fun t => decide (t ≠ 0 ∧ t ∈ os.map s.memFk))
+      s.targets.eraseDups (nodup_eraseDups _) (fun a _ b _ _ _ e => e)
+    simpa [findIds] using this
+  · refine nodup_map_filter (fun p : Nat × Nat => p.2) (fun p => decide (p.1 ∈ os))
+      s.links.eraseDups (nodup_eraseDups _) ?_
+    rintro ⟨a1, a2⟩ ha ⟨b1, b2⟩ hb ha' hb' e
+    simp at ha' hb' e ha hb
+    subst e
+    have fa := bt_link_fk (hinv a1 ha') ha
+    have fb := bt_link_fk (hinv b1 hb') hb
+    have : a1 = b1 := hinj a1 ha' b1 hb' (by rw [fa.1]; exact fa.2) (by rw [fa.1, fb.1])
+    subst this; rfl
+  · intro t
+    rw [C12_slice_find_bt os s hinv t]
+    simp [List.mem_filter]
+    constructor
+    · rintro ⟨o, ho, hl⟩; exact ⟨o, hl, ho⟩
+    · rintro ⟨o, hl, ho⟩; exact ⟨o, ho, hl⟩
+
+/-- B2: observations after any scoped slice run, class fk (under ¬F12e) -/
+theorem C12_slice_observations_run_fk (os : List Nat) (ops : List Op) (s : St) (hnd : os.Nodup) (hos : os ≠ [])
+    (hinv : ∀ o ∈ os, Inv ⟨.fk, false⟩ o s) (hok : SliceRunOkFk os ops s) :
+    (∀ o ∈ os, ∀ t, t ∈ memKeys (run ⟨.fk, false⟩ os ops s) o ↔ t ∈ linksOf (run ⟨.fk, false⟩ os ops s) o) ∧
+    (∀ t, t ∈ findIds ⟨.fk, false⟩ os (run ⟨.fk, false⟩ os ops s) ↔
+      ∃ o ∈ os, (o, t) ∈ (run ⟨.fk, false⟩ os ops s).links) ∧
+    count ⟨.fk, false⟩ os (run ⟨.fk, false⟩ os ops s) =
+      ((run ⟨.fk, false⟩ os ops s).links.eraseDups.filter (fun p => p.1 ∈ os)).length :=
+  ⟨fun o ho => C12_memory_agrees _ o _ (C12_slice_inv_run_fk os ops s hnd hos hinv hok o ho),
+    C12_slice_find_fk false os _, C12_slice_count_fk false os _⟩
+
+/-- B2: observations after any scoped slice run, class bt; Count under ¬F12b in the final state -/
+theorem C12_slice_observations_run_bt (os : List Nat) (ops : List Op) (s : St) (hnd : os.Nodup) (hos : os ≠ [])
+    (hinv : ∀ o ∈ os, Inv ⟨.bt, true⟩ o s) (hok : SliceRunOkBt os ops s) :
+    (∀ o ∈ os, ∀ t, t ∈ memKeys (run ⟨.bt, true⟩ os ops s) o ↔ t ∈ linksOf (run ⟨.bt, true⟩ os ops s) o) ∧
+    (∀ t, t ∈ findIds ⟨.bt, true⟩ os (run ⟨.bt, true⟩ os ops s) ↔
+      ∃ o ∈ os, (o, t) ∈ (run ⟨.bt, true⟩ os ops s).links) ∧
+    ((∀ a ∈ os, ∀ b ∈ os, (run ⟨.bt, true⟩ os ops s).memFk a ≠ 0 →
+        (run ⟨.bt, true⟩ os ops s).memFk a = (run ⟨.bt, true⟩ os ops s).memFk b → a = b) →
+      count ⟨.bt, true⟩ os (run ⟨.bt, true⟩ os ops s) =
+        ((run ⟨.bt, true⟩ os ops s).links.eraseDups.filter (fun p => p.1 ∈ os)).length) := by
+  have hI := C12_slice_inv_run_bt os ops s hnd hos hinv hok
+  exact ⟨fun o ho => C12_memory_agrees _ o _ (hI o ho), C12_slice_find_bt os _ hI,
+    fun hinj => C12_slice_count_bt os _ hI hinj⟩
+
+/-- non-vacuity (slices, fk and bt): well-formed runs on the owners 1 and 2, and their kernel-evaluated result -/
+example : SliceRunOkFk [1, 2] [⟨.append, false, [[0, 7], [0]]⟩, ⟨.replace, false, [[7], [0]]⟩, ⟨.delete, false, [[7]]⟩]
+    { links := [], targets := [7], next := 21, mem := fun _ => [], memFk := fun _ => 0 } := by
+  refine ⟨⟨rfl, fun _ => Or.inr ⟨rfl, ?_, ?_⟩, by simp⟩, ⟨rfl, by simp, fun _ => Or.inr ⟨rfl, ?_, ?_⟩⟩, ⟨rfl, by simp, by simp⟩, trivial⟩
+  · intro vs hvs; simp at hvs; rcases hvs with h | h <;> subst h <;> simp
+  · unfold NoF12e; decide
+  · intro vs hvs; simp at hvs; rcases hvs with h | h <;> subst h <;> decide
+  · unfold DisjVals; decide
+
+example : SliceRunOkBt [1, 2] [⟨.append, false, [[0], [7]]⟩, ⟨.replace, false, [[7], [0]]⟩, ⟨.delete, false, [[7]]⟩, ⟨.clear, false, []⟩]
+    { links := [], targets := [7], next := 21, mem := fun _ => [], memFk := fun _ => 0 } := by
+  refine ⟨⟨rfl, fun _ => Or.inr ⟨rfl, ?_⟩⟩, ⟨rfl, fun _ => Or.inr ⟨rfl, ?_⟩⟩, ⟨rfl, by simp⟩, ⟨rfl, by simp⟩, trivial⟩
+  · intro vs hvs; simp at hvs; rcases hvs with h | h <;> subst h <;> simp
+  · intro vs hvs; simp at hvs; rcases hvs with h | h <;> subst h <;> exact ⟨_, rfl, by decide⟩
+
+example :
+    (run ⟨.fk, false⟩ [1, 2] [⟨.append, false, [[0, 7], [0]]⟩, ⟨.replace, false, [[7], [0]]⟩]
+      { links := [], targets := [7], next := 21, mem := fun _ => [], memFk := fun _ => 0 }).links = [(1, 7), (2, 23)] ∧
+    (run ⟨.bt, true⟩ [1, 2] [⟨.append, false, [[0], [7]]⟩, ⟨.replace, false, [[7], [0]]⟩]
+      { links := [], targets := [7], next := 21, mem := fun _ => [], memFk := fun _ => 0 }).links = [(1, 7), (2, 22)] := by
+  decide
+
+/-- non-vacuity (slices, m2m): a well-formed run on the owners 1 and 2; model and specification agree -/
+example : SliceRunOk [1, 2] [⟨.append, false, [[0, 7], [0]]⟩, ⟨.replace, false, [[7], [0]]⟩, ⟨.delete, false, [[7]]⟩]
+    { links := [], targets := [7], next := 21, mem := fun _ => [], memFk := fun _ => 0 } := by
+  refine ⟨?_, ?_, ?_, trivial⟩
+  · simp [SliceOpOk, ValsOk]; decide
+  · refine ⟨by simp, fun _ => Or.inr ⟨rfl, ?_, ?_⟩⟩
+    · intro vs hvs; simp at hvs; rcases hvs with h | h <;> subst h <;> decide
+    · intro A hA t hl
+      have : (A, t) ∈ [(1, 21), (1, 7), (2, 22)] := hl
+      simp at this hA
+      rcases this with ⟨rfl, rfl⟩ | ⟨rfl, rfl⟩ | ⟨rfl, rfl⟩ <;> simp [valsOf]
+  · simp [SliceOpOk]
+
+example :
+    (run ⟨.m2m, false⟩ [1, 2]
+      [⟨.append, false, [[0, 7], [0]]⟩, ⟨.replace, false, [[7], [0]]⟩, ⟨.delete, false, [[7]]⟩]
+      { links := [], targets := [7], next := 21, mem := fun _ => [], memFk := fun _ => 0 }).links = [(2, 23)] ∧
+    (sliceSpecRun [1, 2]
+      [⟨.append, false, [[0, 7], [0]]⟩, ⟨.replace, false, [[7], [0]]⟩, ⟨.delete, false, [[7]]⟩]
+      (21, fun _ => [])).2 2 = [23] := by
+  decide
+
+/-- non-vacuity: the empty store satisfies the invariant for every relation kind the fragment covers … -/
+example : Inv ⟨.m2m, false⟩ 1 { links := [], targets := [], next := 21, mem := fun _ => [], memFk := fun _ => 0 } := by
+  constructor <;> simp
+
+example : Inv ⟨.bt, true⟩ 1 { links := [], targets := [], next := 21, mem := fun _ => [], memFk := fun _ => 0 } := by
+  constructor <;> simp
+
+/-- … and a call with a preset key and two keyless values is well-formed in it -/
+example : OpOk ⟨.m2m, false⟩ { links := [], targets := [], next := 21, mem := fun _ => [], memFk := fun _ => 0 }
+    ⟨.append, false, [[0, 0, 7]]⟩ := by
+  refine ⟨rfl, fun _ => Or.inr ⟨[0, 0, 7], rfl, by simp, by simp, fun _ => by decide, by simp⟩⟩
+
+example : RunOk ⟨.fk, false⟩ 1 [⟨.append, false, [[0, 7]]⟩, ⟨.delete, false, [[7]]⟩, ⟨.clear, false, []⟩]
+    { links := [], targets := [], next := 21, mem := fun _ => [], memFk := fun _ => 0 } := by
+  simp [RunOk, OpOk]
+
+/-- … and on a concrete run model and specification give the same links (kernel-evaluated) -/
+example :
+    (run ⟨.fk, false⟩ [1] [⟨.append, false, [[0, 7]]⟩, ⟨.append, false, [[0]]⟩, ⟨.delete, false, [[7]]⟩]
+      { links := [], targets := [], next := 21, mem := fun _ => [], memFk := fun _ => 0 }).links
+      = [(1, 21), (1, 22)] ∧
+    specRun ⟨.fk, false⟩ [⟨.append, false, [[0, 7]]⟩, ⟨.append, false, [[0]]⟩, ⟨.delete, false, [[7]]⟩] (21, [])
+      = (23, [21, 22]) := by
+  decide
 
 end Gorm
